@@ -90,8 +90,12 @@ Definition stepW (s : state) : option (state * lab) :=
     end.
 
 (* ---- the thread that removes the object / stops the context -------------------------------------------- *)
-(* stop's sweep fails every future that is still registered (also one that already has its result: first result wins) *)
-Definition sweepable (x : cst) : bool := match pc x with CDone => false | _ => true end.
+(* stop's sweep iterates over a snapshot of the registered handlers and fails every QMI_RpcFuture in it: it can reach a
+   call in ANY position - issued but not yet looked up, looked up, before the running check, accepted, and also one whose
+   caller has meanwhile finished and unregistered the future.  QMI_RpcFuture keeps the FIRST outcome (single assignment:
+   property C01, clause "every call completes exactly once"; here [set_res]): a sweep of a call that already has its
+   outcome, and a later refusal / error reply for a call the sweep has already failed, are absorbed. *)
+Definition sweepable (x : cst) : bool := true.
 Definition stepS (c : cfg) (s : state) : list (state * lab) :=
   match sp s with
   | S0 => [(mkSt (cs s) S1 false (running s) (shut s) (walive s) (queue s) (relc s), LUnreg)]
